@@ -25,7 +25,7 @@ NEGATIVE = {"catchwide": ("d", "RejectsAsSource"), "nonlocal": ("d", "DynamicIsL
 
 SRC = '''
 from dataclasses import dataclass, field
-from typing import List
+from typing import List, NamedTuple
 from apischema.metadata import conversion
 
 
@@ -54,6 +54,10 @@ class K3:
 @dataclass
 class W:
     w: int
+
+
+class N(NamedTuple):
+    x: K1
 '''
 
 
@@ -84,6 +88,11 @@ class Env:
             xmeta = mod.conversion(serialization=self.conv_tuple(hf[0]["sconv"]))
         mod.H = dataclasses.make_dataclass(
             "H", [("x", mod.K1, dataclasses.field(metadata=xmeta)), ("xs", List[mod.K1])], namespace={"__module__": name})
+        h2 = E["ct"]["H2"]["fields"][0]
+        mod.H2 = dataclasses.make_dataclass("H2", [("x", mod.K1)], namespace={"__module__": name})   # H2 must exist before flk / fh
+        mod.H2 = dataclasses.make_dataclass(
+            "H2", [("x", mod.K1, dataclasses.field(metadata=mod.conversion(deserialization=self.conv_tuple(h2["dconv"]))))],
+            namespace={"__module__": name})
         self.tableD: Dict[type, tuple] = {}
         self.tableS: Dict[type, Any] = {}
         for cname, convs in E["regD"].items():
@@ -292,6 +301,7 @@ def has_fail(d: Any) -> bool:
 
 
 def replay_cfg(rep: common.Report, env: Env, direction: str, c: dict) -> int:
+    import jsonschema
     from apischema import ValidationError, deserialize, serialize
     from apischema.json_schema import deserialization_schema, serialization_schema
     from apischema.visitor import Unsupported
@@ -321,8 +331,13 @@ def replay_cfg(rep: common.Report, env: Env, direction: str, c: dict) -> int:
         return n
     if not supported:
         return n
-    want = schema_fn(env.py_type(plain))
-    if norm(deref(schema, schema)) != norm(deref(want, want)):
+    try:
+        jsonschema.Draft202012Validator.check_schema(schema)
+    except jsonschema.SchemaError as err:
+        rep.violation(f"{label}: schema not valid against its meta-schema: {err.message[:160]}", dict(info, got=schema))
+    recursive = '"rec"' in json.dumps(plain)
+    want = None if recursive else schema_fn(env.py_type(plain))
+    if want is not None and norm(deref(schema, schema)) != norm(deref(want, want)):
         rep.violation(f"{label}: schema {deref(schema, schema)} is not the schema of the source/target type {deref(want, want)}",
                       dict(info, got=schema, want=want))
     # -- values
